@@ -161,14 +161,14 @@ func genChanged(t *rapid.T, old Call, o textOpts, col *collector) Call {
 			default:
 				n = mutateText(t, s, o)
 			}
-			n = stripCR(n)
+			n = vhStripCR(n)
 			return Call{API: old.API, Cfg: old.Cfg, Vals: []Val{strVal(n)}}
 		}
 	}
 	return genAnyCall(t, old.API, o, col)
 }
 
-func stripCR(s string) string {
+func vhStripCR(s string) string {
 	out := []byte{}
 	for i := 0; i < len(s); i++ {
 		if s[i] == '\r' && (i+1 == len(s) || s[i+1] == '\n') {
@@ -196,7 +196,7 @@ func genC04(t *rapid.T) c04Case {
 		id := entryID(names[ntests], rapid.IntRange(1, 11).Draw(t, "eord"))
 		if !seen[id] {
 			seen[id] = true
-			c.Extra = append(c.Extra, Entry{ID: BS(id), Body: BS(stripCR(refEscape(genText(t, o))))})
+			c.Extra = append(c.Extra, Entry{ID: BS(id), Body: BS(vhStripCR(refEscape(genText(t, o))))})
 		}
 	}
 	for i := 0; i < ntests; i++ {
@@ -229,10 +229,10 @@ func genC04(t *rapid.T) c04Case {
 	if rapid.Bool().Draw(t, "byenv") {
 		c.UpdateEnv = "true"
 		if rapid.IntRange(0, 3).Draw(t, "alsoopt") == 0 {
-			c.UpdateOpt = boolp(true)
+			c.UpdateOpt = vhBoolp(true)
 		}
 	} else {
-		c.UpdateOpt = boolp(true)
+		c.UpdateOpt = vhBoolp(true)
 		c.UpdateEnv = rapid.SampledFrom([]string{"", "clean", "false", "1"}).Draw(t, "env")
 	}
 	c.Mode3, c.Upd3 = genReadOnlyMode(t)
@@ -281,21 +281,21 @@ func checkC04(c c04Case) error {
 		for k, cc := range tc.Calls {
 			r := cc.Old.invoke(pick(cc.Old, cfg, solo), ft)
 			if out, err := outcomeOf(r); err != nil || out != oAdded {
-				return fmt.Errorf("recording %s call %d: outcome %q err %v errors=%q", tc.Name, k+1, out, err, clipAll(r.Errors))
+				return fmt.Errorf("recording %s call %d: outcome %q err %v errors=%q", tc.Name, k+1, out, err, vhClipAll(r.Errors))
 			}
 		}
 		ft.finish()
 	}
-	expected, err := refParse(readFile(multi))
-	if err != nil && readFile(multi) != "" {
+	expected, err := refParse(vhReadFile(multi))
+	if err != nil && vhReadFile(multi) != "" {
 		return fmt.Errorf("file after recording is not well formed: %v", err)
 	}
 
-	if data := readFile(multi); c.Leftover && data != "" {
+	if data := vhReadFile(multi); c.Leftover && data != "" {
 		os.WriteFile(multi+".tmp", []byte(data+data+"\n[TestLeftover - 1]\nresidue of an interrupted run "+strings.Repeat("x", 300)+"\n---\n"), 0o644)
 	}
 	crlf := false
-	if data := readFile(multi); c.CRLF && data != "" && !strings.Contains(data, "\r") {
+	if data := vhReadFile(multi); c.CRLF && data != "" && !strings.Contains(data, "\r") {
 		os.WriteFile(multi, []byte(strings.ReplaceAll(data, "\n", "\r\n")), 0o644)
 		crlf = true
 	}
@@ -362,7 +362,7 @@ func checkC04(c c04Case) error {
 			}
 			if !changed {
 				if out != oPassed {
-					return fmt.Errorf("update run %s call %d (%s, value unchanged): outcome %s, want passed; errors=%q", tc.Name, k+1, cc.New.API, out, clipAll(r.Errors))
+					return fmt.Errorf("update run %s call %d (%s, value unchanged): outcome %s, want passed; errors=%q", tc.Name, k+1, cc.New.API, out, vhClipAll(r.Errors))
 				}
 				if d := diffDirs(before, after, true); d != "" {
 					return fmt.Errorf("update run %s call %d (%s): value already matches but the call wrote: %s", tc.Name, k+1, cc.New.API, d)
@@ -370,7 +370,7 @@ func checkC04(c c04Case) error {
 				continue
 			}
 			if out != oUpdated {
-				return fmt.Errorf("update run %s call %d (%s, value changed): outcome %s, want updated; errors=%q logs=%q", tc.Name, k+1, cc.New.API, out, clipAll(r.Errors), clipAll(r.Logs))
+				return fmt.Errorf("update run %s call %d (%s, value changed): outcome %s, want updated; errors=%q logs=%q", tc.Name, k+1, cc.New.API, out, vhClipAll(r.Errors), vhClipAll(r.Logs))
 			}
 			// exactly the addressed file changed
 			for p, b := range before {
@@ -395,14 +395,14 @@ func checkC04(c c04Case) error {
 				switch cc.New.API {
 				case "ssnap":
 					if want := cc.New.snapText(); got != want {
-						return fmt.Errorf("update run %s call %d: standalone file %q holds %q, want exactly the new formatted value %q", tc.Name, k+1, file, clip(got), clip(want))
+						return fmt.Errorf("update run %s call %d: standalone file %q holds %q, want exactly the new formatted value %q", tc.Name, k+1, file, vhClip(got), vhClip(want))
 					}
 				case "sjson":
 					if err := checkStandaloneJSON(got, string(cc.New.Doc)); err != nil {
 						return fmt.Errorf("update run %s call %d: standalone file %q: %v", tc.Name, k+1, file, err)
 					}
 					if c.JSON2 != nil && isJSON(cc.New) && got != jsonText(cc.New, c.JSON2) {
-						return fmt.Errorf("update run %s call %d: standalone file %q holds %q, the document formatted with the options of this run is %q", tc.Name, k+1, file, clip(got), clip(jsonText(cc.New, c.JSON2)))
+						return fmt.Errorf("update run %s call %d: standalone file %q holds %q, the document formatted with the options of this run is %q", tc.Name, k+1, file, vhClip(got), vhClip(jsonText(cc.New, c.JSON2)))
 					}
 				}
 				continue
@@ -413,7 +413,7 @@ func checkC04(c c04Case) error {
 			}
 			got, perr := refParse(lf(after[file].Data))
 			if perr != nil {
-				return fmt.Errorf("update run %s call %d: after rewriting %q the file is not well formed (residue?): %v; content %q", tc.Name, k+1, id, perr, clip(after[file].Data))
+				return fmt.Errorf("update run %s call %d: after rewriting %q the file is not well formed (residue?): %v; content %q", tc.Name, k+1, id, perr, vhClip(after[file].Data))
 			}
 			if len(got) != len(expected) {
 				return fmt.Errorf("update run %s call %d: rewriting %q changed the entry list: before %s | after %s", tc.Name, k+1, id, describeEntries(expected), describeEntries(got))
@@ -427,12 +427,12 @@ func checkC04(c c04Case) error {
 						return fmt.Errorf("update run %s call %d: rewritten entry %q: %v", tc.Name, k+1, id, err)
 					}
 					if c.JSON2 != nil && isJSON(cc.New) && string(got[i].Body) != jsonText(cc.New, c.JSON2) {
-						return fmt.Errorf("update run %s call %d: rewritten entry %q holds %q, the document formatted with the options of this run is %q", tc.Name, k+1, id, clip(string(got[i].Body)), clip(jsonText(cc.New, c.JSON2)))
+						return fmt.Errorf("update run %s call %d: rewritten entry %q holds %q, the document formatted with the options of this run is %q", tc.Name, k+1, id, vhClip(string(got[i].Body)), vhClip(jsonText(cc.New, c.JSON2)))
 					}
 					continue
 				}
 				if got[i].Body != expected[i].Body {
-					return fmt.Errorf("update run %s call %d: rewriting %q changed entry %q: %q -> %q", tc.Name, k+1, id, got[i].ID, clip(string(expected[i].Body)), clip(string(got[i].Body)))
+					return fmt.Errorf("update run %s call %d: rewriting %q changed entry %q: %q -> %q", tc.Name, k+1, id, got[i].ID, vhClip(string(expected[i].Body)), vhClip(string(got[i].Body)))
 				}
 			}
 			expected = got
@@ -458,7 +458,7 @@ func checkC04(c c04Case) error {
 			r := cc.New.invoke(pick(cc.New, cfg, solo), ft)
 			out, err := outcomeOf(r)
 			if err != nil || out != oPassed {
-				return fmt.Errorf("read-only run after the update: %s call %d (%s): outcome %q err %v errors=%q", tc.Name, k+1, cc.New.API, out, err, clipAll(r.Errors))
+				return fmt.Errorf("read-only run after the update: %s call %d (%s): outcome %q err %v errors=%q", tc.Name, k+1, cc.New.API, out, err, vhClipAll(r.Errors))
 			}
 		}
 		ft.finish()
@@ -473,14 +473,14 @@ func checkC04(c c04Case) error {
 func checkStandaloneJSON(got, doc string) error {
 	g, err := parseJNode(got)
 	if err != nil {
-		return fmt.Errorf("content is not valid JSON: %v: %q", err, clip(got))
+		return fmt.Errorf("content is not valid JSON: %v: %q", err, vhClip(got))
 	}
 	w, _ := parseJNode(doc)
 	if g.Canon() != w.Canon() {
-		return fmt.Errorf("content %q is not the value of %q", clip(got), clip(doc))
+		return fmt.Errorf("content %q is not the value of %q", vhClip(got), vhClip(doc))
 	}
 	if len(got) > 0 && got[len(got)-1] == '\n' {
-		return fmt.Errorf("content ends with an added newline: %q", clip(got))
+		return fmt.Errorf("content ends with an added newline: %q", vhClip(got))
 	}
 	return nil
 }
@@ -546,7 +546,7 @@ func classifyC04Base(c c04Case) ([]string, bool) {
 	} else {
 		cls = append(cls, "update_by_env")
 	}
-	cls = uniq(cls)
+	cls = vhUniq(cls)
 	nt := false
 	for _, k := range cls {
 		switch k {
